@@ -37,6 +37,9 @@ def capture_configs():
         "empty captures": [((0, 4), [(1, 1), (2, 4)]), ((4, 6), [(4, 4), (6, 6)]), ((10, n), [(n, n), None])],
         "capture at both ends": [((0, n), [(0, 3), (n - 2, n)])],
         "no groups": [((2, 4), [])],
+        "two empty captures at the same offset": [((0, 2), [(1, 1), (1, 1)]), ((5, 5), [(5, 5), (5, 5), (5, 5)])],
+        "identical non-empty spans in different matches": [((0, 2), [(0, 2)]), ((2, 4), [(2, 4)])],
+        "empty capture where the previous capture ended": [((0, 4), [(0, 2), (2, 2), (2, 4)])],
         "no match": [],
     }
 
